@@ -418,26 +418,9 @@ def date(year, month_, day):
     if year < 1900:
         year += 1900
 
-    if day < 1:
-        # that many days before the first of the month
-        result = first_of_month(year, month_) + day - 1
-        if not (0 <= result < DATE_MAX_INT):
-            return NUM_ERROR
-        return result
-
-    # taking into account negative month and day values
-    year, month_, day = normalize_year(year, month_, day)
-
-    try:
-        result = (dt.datetime(year, month_, day) - DATE_ZERO).days
-        if result <= 60:
-            result -= 1
-    except ValueError:
-        if (year, month_, day) != LEAP_1900_TUPLE:
-            return NUM_ERROR
-        result = 60.0
-
-    if result < 0:
+    # the days count from the first of the month: before, in or after it
+    result = first_of_month(year, month_) + day - 1
+    if not (0 <= result < DATE_MAX_INT):
         return NUM_ERROR
     return result
 
